@@ -114,7 +114,7 @@ def run_tlc_mc(wdir, mc, constants, workers, timeout):
     cmd = ["tlc", "-workers", str(workers), "-metadir", md, "-cleanup", "-noGenerateSpecTE",
            "-config", cfg, os.path.join(SPEC, mc["module"] + ".tla")]
     t0 = time.time()
-    env = dict(os.environ, JAVA_TOOL_OPTIONS="-Xss64m -XX:+UseParallelGC")
+    env = dict(os.environ, JAVA_TOOL_OPTIONS="-Xss64m")
     with open(out, "w") as f:
         try:
             r = subprocess.run(cmd, stdout=f, stderr=subprocess.STDOUT, cwd=SPEC, timeout=timeout, env=env)
@@ -162,7 +162,7 @@ def run_tlc_trace(trace_module, trace_file, wdir, tag, timeout=1800):
     cfg = os.path.join(SPEC, trace_module + ".cfg")
     out = os.path.join(wdir, "trace_%s.out" % tag)
     env = dict(os.environ, TRACE=trace_file,
-               JAVA_TOOL_OPTIONS="-Xss1g -Xmx3g -XX:+UseSerialGC -Dtlc2.tool.queue.IStateQueue=StateDeque")
+               JAVA_TOOL_OPTIONS="-Xss1g -Xmx3g -Dtlc2.tool.queue.IStateQueue=StateDeque")
     cmd = ["tlc", "-workers", "1", "-metadir", md, "-cleanup", "-noGenerateSpecTE", "-config", cfg,
            os.path.join(SPEC, trace_module + ".tla")]
     with open(out, "w") as f:
